@@ -19,6 +19,8 @@ func main() {
 	out := flag.String("out", "", "result")
 	budget := flag.Duration("budget", 0, "budget")
 	max := flag.Int("max", 0, "max behaviours")
+	stride := flag.Int("stride", 1, "replay every k-th behaviour")
+	offset := flag.Int("offset", 0, "first behaviour of the stride")
 	flag.Parse()
 	r := &noderun.Runner{Ctx: context.Background(), Res: &noderun.Result{ByOp: map[string]int{}}}
 	data, err := os.ReadFile(*beh)
@@ -40,7 +42,7 @@ func main() {
 		sc := bufio.NewScanner(strings.NewReader(string(data)))
 		sc.Buffer(make([]byte, 1<<20), 1<<27)
 		seen := map[string]bool{}
-		n := 0
+		n, idx := 0, 0
 		for sc.Scan() {
 			l := strings.TrimSpace(sc.Text())
 			if l == "" || seen[l] {
@@ -61,6 +63,10 @@ func main() {
 			}
 			if (*max > 0 && n >= *max) || (*budget > 0 && time.Since(start) > *budget) || len(r.Res.Violations) > 10 {
 				break
+			}
+			idx++
+			if (idx-1)%*stride != *offset%*stride {
+				continue
 			}
 			n++
 			r.Replay(b)
